@@ -122,3 +122,433 @@ theorem sees_append {st : BState V} {ρ : Results V} {e1 e2 : List Ref} {v1 v2 :
     exact ⟨a, w, v, hw, by rw [List.getElem?_append_right (by rw [← hl1]; exact hge), ← hl1]; exact hv, hidx⟩
 
 end VM
+
+namespace VM
+open TM
+variable {V : Type} [PyVal V]
+
+/-- the reference produced for an argument has a value under `ρ'` and indexes to the plain value -/
+theorem traceArg_sees {ρ0 ρ' : Results V} {st0 st stF : BState V} {vals : List V} (a : Arg V) {v : V}
+    (hsees : Sees st0 ρ0 vals) (h0 : Ext st0 st) (hF : Ext (traceArg st a).1 stF)
+    (hshow : Shows ρ0 ρ' st0 stF) (hev : evalArg vals a = .ok v) :
+    (traceArg st a).2.src < (traceArg st a).1.next ∧
+    ∃ w, ρ' (traceArg st a).2.src = some w ∧ index w (traceArg st a).2.path = .ok v := by
+  cases a with
+  | const c =>
+    simp only [evalArg] at hev
+    have hv : c = v := by injection hev
+    subst hv
+    have hlt : st.next < (traceArg st (.const c)).1.next := Nat.lt_succ_self _
+    refine ⟨hlt, c, ?_, rfl⟩
+    have h1 : ρ' st.next = stF.init st.next :=
+      hshow.2 st.next h0.next (Nat.lt_of_lt_of_le hlt hF.next)
+    have h2 : stF.init st.next = some c := by
+      rw [hF.below st.next hlt]; show (st.init.set st.next c) st.next = some c; exact set_eq
+    show ρ' st.next = some c
+    rw [h1, h2]
+  | var i path =>
+    simp only [evalArg] at hev
+    have henv : st.env = st0.env := h0.env
+    cases hvi : vals[i]? with
+    | none => simp [hvi] at hev
+    | some u =>
+      simp only [hvi] at hev
+      have hil : i < st0.env.length := by
+        rw [hsees.1]; exact (List.getElem?_eq_some_iff.mp hvi).1
+      obtain ⟨r0, hr0⟩ : ∃ r0, st0.env[i]? = some r0 := ⟨st0.env[i], List.getElem?_eq_getElem hil⟩
+      obtain ⟨hlt, w, v', hw, hv', hidx⟩ := hsees.2 i r0 hr0
+      have huv : u = v' := by rw [hvi] at hv'; injection hv'
+      subst huv
+      have htr : traceArg st (.var i path) = (st, ⟨r0.src, r0.path ++ path⟩) := by
+        simp only [traceArg, henv, hr0]
+      rw [htr]
+      refine ⟨Nat.lt_of_lt_of_le hlt h0.next, w, ?_, ?_⟩
+      · show ρ' r0.src = some w
+        rw [hshow.1 r0.src hlt]; exact hw
+      · show index w (r0.path ++ path) = .ok v
+        rw [index_append, hidx]; exact hev
+
+/-- list version: the references produced for a list of arguments are seen with the evaluated values -/
+theorem traceArgs_sees {ρ0 ρ' : Results V} {st0 : BState V} {vals : List V} (hsees : Sees st0 ρ0 vals) :
+    ∀ (l : List (Arg V)) (st stF : BState V) (vs : List V), Ext st0 st → Ext (traceArgs st l).1 stF →
+      Shows ρ0 ρ' st0 stF → l.mapM (evalArg vals) = .ok vs →
+      Sees ({ stF with env := (traceArgs st l).2 } : BState V) ρ' vs := by
+  intro l
+  induction l with
+  | nil =>
+    intro st stF vs _ _ _ hev
+    simp only [List.mapM_nil] at hev
+    have : vs = [] := by injection hev with h; exact h.symm
+    subst this
+    exact ⟨rfl, by intro i r hi; simp [traceArgs] at hi⟩
+  | cons a rest ih =>
+    intro st stF vs h0 hF hshow hev
+    simp only [List.mapM_cons] at hev
+    cases ha : evalArg vals a with
+    | error e => simp [ha] at hev; cases hev
+    | ok v =>
+      cases hr : rest.mapM (evalArg vals) with
+      | error e => simp [ha, hr] at hev; cases hev
+      | ok vs' =>
+        simp [ha, hr] at hev
+        have hvs : vs = v :: vs' := by injection hev with h; exact h.symm
+        subst hvs
+        have hext1 := traceArg_ext st a
+        have hext2 := traceArgs_ext rest (traceArg st a).1
+        have hF' : Ext (traceArgs (traceArg st a).1 rest).1 stF := by simpa [traceArgs] using hF
+        have hFa : Ext (traceArg st a).1 stF := hext2.trans hF'
+        obtain ⟨hlt, w, hw, hidx⟩ := traceArg_sees a hsees h0 hFa hshow ha
+        have h2 := ih (traceArg st a).1 stF vs' (h0.trans hext1) hF' hshow hr
+        refine ⟨?_, ?_⟩
+        · show ((traceArgs st (a :: rest)).2).length = (v :: vs').length
+          simp only [traceArgs, List.length_cons]
+          have : ((traceArgs (traceArg st a).1 rest).2).length = vs'.length := h2.1
+          omega
+        · intro i r hi
+          have hi' : ((traceArg st a).2 :: (traceArgs (traceArg st a).1 rest).2)[i]? = some r := by
+            simpa [traceArgs] using hi
+          cases i with
+          | zero =>
+            simp at hi'; subst hi'
+            exact ⟨Nat.lt_of_lt_of_le hlt hFa.next, w, v, hw, rfl, hidx⟩
+          | succ j =>
+            simp at hi'
+            obtain ⟨hl, w', v', hw', hv', hidx'⟩ := h2.2 j r hi'
+            exact ⟨hl, w', v', hw', by simpa using hv', hidx'⟩
+
+/-- under the denotation of a later state, holders created since are shown -/
+theorem shows_den {interp : Interp V} {st stF : BState V} {vals : List V} (hg : Good interp st vals)
+    (hext : Ext st stF) : Shows (den (st.cfg interp)) (den (stF.cfg interp)) st stF := by
+  refine ⟨(grows_of_ext hg hext).den, ?_⟩
+  intro x hx _
+  show denote (stF.cfg interp) stF.nodes stF.init x = stF.init x
+  apply denote_notin
+  rw [hext.nodes]
+  intro hmem; exact absurd (hg.nlt x hmem) (Nat.not_lt.mpr hx)
+
+/-- holders only: `Good` is kept (the environment is the old one) -/
+theorem good_of_ext {interp : Interp V} {st st' : BState V} {vals : List V} (hg : Good interp st vals)
+    (h : Ext st st') : Good interp st' vals := by
+  have hgr := grows_of_ext hg h
+  refine ⟨h.above hg.fresh, ?_, ?_, ?_, ?_, ?_⟩
+  · intro n hn; rw [h.nodes] at hn; exact Nat.lt_of_lt_of_le (hg.nlt n hn) h.next
+  · intro n hn r hr; rw [h.nodes] at hn; rw [h.recOf] at hr; exact hg.rlt n hn r hr
+  · rw [h.nodes]; exact hg.sorted
+  · intro n hn; rw [h.nodes] at hn; rw [h.below n (hg.nlt n hn)]; exact hg.ninit n hn
+  · have := sees_grows hg.sees hgr
+    have he : ({ st' with env := st.env } : BState V) = st' := by
+      cases st'; simp only [BState.mk.injEq, true_and]; exact h.env.symm
+    rwa [he] at this
+
+end VM
+
+namespace VM
+open TM
+variable {V : Type} [PyVal V]
+
+/-- `traceCall_good` together with the growth fact -/
+theorem traceCall_grows (interp : Interp V) {st : BState V} {vals : List V} (c : Call V) {v : V}
+    (hg : Good interp st vals) (hev : evalCall interp vals c = .ok v) :
+    Grows interp st (traceCall st c) := by
+  unfold traceCall
+  have e1 := traceArgs_ext c.args st
+  have e2 := traceKwargs_ext c.kwargs (traceArgs st c.args).1
+  have e3 := traceActive_ext (traceKwargs (traceArgs st c.args).1 c.kwargs).1 c
+  have hden := good_extend_den interp hg ((e1.trans e2).trans e3)
+    { fn := c.fn, args := (traceArgs st c.args).2,
+      kwargs := (traceKwargs (traceArgs st c.args).1 c.kwargs).2,
+      active := (traceActive (traceKwargs (traceArgs st c.args).1 c.kwargs).1 c).2 } v ?_
+  · refine ⟨?_, hden.1⟩
+    show st.next ≤ (traceActive (traceKwargs (traceArgs st c.args).1 c.kwargs).1 c).1.next + 1
+    exact Nat.le_succ_of_le ((e1.trans e2).trans e3).next
+  · intro ρ1 hshow
+    obtain ⟨b, hb, hbF, hbT⟩ := evalCall_inv interp vals c v hev
+    have hact := traceActive_sound (ρ' := ρ1) c hg.sees (e1.trans e2) (Ext.refl _) hshow hb
+      { fn := c.fn, args := (traceArgs st c.args).2,
+        kwargs := (traceKwargs (traceArgs st c.args).1 c.kwargs).2,
+        active := (traceActive (traceKwargs (traceArgs st c.args).1 c.kwargs).1 c).2 } rfl
+    unfold outcomeRec
+    rw [hact]
+    cases b with
+    | false => simp only; rw [hbF rfl]
+    | true =>
+      obtain ⟨vs, kws, hvs, hkws, hint⟩ := hbT rfl
+      have h1 := (traceArgs_sound (ρ' := ρ1) hg.sees c.args st _ vs (Ext.refl st) (e2.trans e3) hshow hvs).1
+      have h2 := (traceKwargs_sound (ρ' := ρ1) hg.sees c.kwargs (traceArgs st c.args).1 _ kws e1 e3 hshow hkws).1
+      simp only [callOf, h1, h2]
+      show (match interp c.fn vs kws with | .ok v => some v | .error _ => none) = some v
+      rw [hint]
+
+/-- `mapM` in `Except`: the result has the same length and is computed pointwise -/
+theorem mapM_ok_pointwise {α β : Type} (f : α → Except Err β) : ∀ (l : List α) (ys : List β),
+    l.mapM f = .ok ys → ys.length = l.length ∧ ∀ (i : Nat) (x : α), l[i]? = some x → ∃ y, ys[i]? = some y ∧ f x = .ok y := by
+  intro l
+  induction l with
+  | nil =>
+    intro ys h
+    simp only [List.mapM_nil] at h
+    have : ys = [] := by injection h with h; exact h.symm
+    subst this
+    exact ⟨rfl, by intro i x hi; simp at hi⟩
+  | cons a rest ih =>
+    intro ys h
+    simp only [List.mapM_cons] at h
+    cases ha : f a with
+    | error e => simp [ha] at h; cases h
+    | ok y =>
+      cases hr : rest.mapM f with
+      | error e => simp [ha, hr] at h; cases h
+      | ok ys' =>
+        simp [ha, hr] at h
+        have hys : ys = y :: ys' := by injection h with h; exact h.symm
+        subst hys
+        obtain ⟨hl, hp⟩ := ih ys' hr
+        refine ⟨by simp [hl], ?_⟩
+        intro i x hi
+        cases i with
+        | zero => simp at hi; subst hi; exact ⟨y, by simp, ha⟩
+        | succ j => simp at hi; obtain ⟨y', hy', hf⟩ := hp j x hi; exact ⟨y', by simpa using hy', hf⟩
+
+theorem sees_dropLast {st : BState V} {ρ : Results V} {e : List Ref} {r : Ref} {vals : List V} {v : V}
+    (h : Sees ({ st with env := e ++ [r] } : BState V) ρ (vals ++ [v])) :
+    Sees ({ st with env := e } : BState V) ρ vals ∧
+    (r.src < st.next ∧ ∃ w, ρ r.src = some w ∧ index w r.path = .ok v) := by
+  have hlen : e.length = vals.length := by
+    have : (e ++ [r]).length = (vals ++ [v]).length := h.1
+    simpa using this
+  refine ⟨⟨hlen, ?_⟩, ?_⟩
+  · intro i x hi
+    have hi' : e[i]? = some x := hi
+    have hlt : i < e.length := (List.getElem?_eq_some_iff.mp hi').1
+    obtain ⟨a, w, u, hw, hu, hidx⟩ := h.2 i x (by show (e ++ [r])[i]? = some x; rw [List.getElem?_append_left hlt]; exact hi')
+    refine ⟨a, w, u, hw, ?_, hidx⟩
+    rw [List.getElem?_append_left (by rw [← hlen]; exact hlt)] at hu; exact hu
+  · obtain ⟨a, w, u, hw, hu, hidx⟩ := h.2 e.length r (by show (e ++ [r])[e.length]? = some r; simp)
+    have : u = v := by
+      rw [hlen] at hu; simp at hu; exact hu.symm
+    subst this
+    exact ⟨a, w, hw, hidx⟩
+
+/-- unpacking: rebinding the last variable as `k` indexed components keeps the invariant -/
+theorem good_rebind {interp : Interp V} {st : BState V} {vals : List V} {v : V} {k : Nat} {comps : List V}
+    (hg : Good interp st (vals ++ [v])) (hu : unpackVals v k = .ok comps) :
+    Good interp (rebindUnpack st k) (vals ++ comps) := by
+  have hne : st.env ≠ [] := by
+    intro h
+    have : st.env.length = (vals ++ [v]).length := hg.sees.1
+    rw [h] at this; simp at this
+  obtain ⟨e, r, her⟩ : ∃ e r, st.env = e ++ [r] := ⟨st.env.dropLast, st.env.getLast hne, (List.dropLast_concat_getLast hne).symm⟩
+  have hlast : st.env.getLast? = some r := by rw [her]; simp
+  have hdrop : st.env.dropLast = e := by rw [her]; simp
+  have hst : st = ({ st with env := e ++ [r] } : BState V) := by cases st; simp only [BState.mk.injEq, true_and]; exact her
+  have hsees0 : Sees ({ st with env := e ++ [r] } : BState V) (den (st.cfg interp)) (vals ++ [v]) := by
+    have := hg.sees; rw [hst] at this; exact this
+  obtain ⟨hs1, hlt, w, hw, hidx⟩ := sees_dropLast hsees0
+  obtain ⟨hlen, hpt⟩ := mapM_ok_pointwise _ _ _ hu
+  have hs2 : Sees ({ st with env := (List.range k).map (fun (j : Nat) => (⟨r.src, r.path ++ [Key.idx (Int.ofNat j)]⟩ : Ref)) } : BState V)
+      (den (st.cfg interp)) comps := by
+    refine ⟨by simp [hlen], ?_⟩
+    intro i x hi
+    have hi' : ((List.range k).map (fun (j : Nat) => (⟨r.src, r.path ++ [Key.idx (Int.ofNat j)]⟩ : Ref)))[i]? = some x := hi
+    simp only [List.getElem?_map, List.getElem?_range] at hi'
+    by_cases hik : i < k
+    · simp [hik] at hi'
+      subst hi'
+      obtain ⟨y, hy, hf⟩ := hpt i i (by simp [hik])
+      refine ⟨hlt, w, y, hw, hy, ?_⟩
+      show index w (r.path ++ [Key.idx (Int.ofNat i)]) = .ok y
+      rw [index_append, hidx]; exact hf
+    · simp [hik] at hi'
+  have hnew := sees_append hs1 hs2
+  have hre : rebindUnpack st k = ({ st with env := e ++ (List.range k).map (fun (j : Nat) => (⟨r.src, r.path ++ [Key.idx (Int.ofNat j)]⟩ : Ref)) } : BState V) := by
+    simp only [rebindUnpack, hlast, hdrop]
+  rw [hre]
+  exact good_setEnv hg _ hnew
+
+theorem rebind_grows (interp : Interp V) (st : BState V) (k : Nat) : Grows interp st (rebindUnpack st k) := by
+  unfold rebindUnpack
+  cases st.env.getLast? with
+  | none => exact Grows.refl interp st
+  | some r => exact grows_setEnv interp st _
+
+end VM
+
+namespace VM
+open TM
+variable {V : Type} [PyVal V]
+
+theorem sees_nil (st : BState V) (ρ : Results V) : Sees ({ st with env := [] } : BState V) ρ [] :=
+  ⟨rfl, by intro i r hi; simp at hi⟩
+
+theorem sees_cons_inv {st : BState V} {ρ : Results V} {a : Ref} {as : List Ref} {v : V} {vs : List V}
+    (h : Sees ({ st with env := a :: as } : BState V) ρ (v :: vs)) :
+    (a.src < st.next ∧ ∃ w, ρ a.src = some w ∧ index w a.path = .ok v) ∧
+    Sees ({ st with env := as } : BState V) ρ vs := by
+  refine ⟨?_, ⟨?_, ?_⟩⟩
+  · obtain ⟨hl, w, u, hw, hu, hidx⟩ := h.2 0 a (by show (a :: as)[0]? = some a; simp)
+    have : u = v := by simp at hu; exact hu.symm
+    subst this; exact ⟨hl, w, hw, hidx⟩
+  · have : (a :: as).length = (v :: vs).length := h.1
+    simpa using this
+  · intro i r hi
+    have hi' : as[i]? = some r := hi
+    obtain ⟨hl, w, u, hw, hu, hidx⟩ := h.2 (i + 1) r (by show (a :: as)[i + 1]? = some r; simpa using hi')
+    exact ⟨hl, w, u, hw, by simpa using hu, hidx⟩
+
+theorem sees_cons {st : BState V} {ρ : Results V} {a : Ref} {as : List Ref} {v : V} {vs : List V}
+    (ha : a.src < st.next ∧ ∃ w, ρ a.src = some w ∧ index w a.path = .ok v)
+    (h : Sees ({ st with env := as } : BState V) ρ vs) :
+    Sees ({ st with env := a :: as } : BState V) ρ (v :: vs) := by
+  refine ⟨?_, ?_⟩
+  · show (a :: as).length = (v :: vs).length
+    have : as.length = vs.length := h.1
+    simp [this]
+  · intro i r hi
+    have hi' : (a :: as)[i]? = some r := hi
+    cases i with
+    | zero =>
+      simp at hi'; subst hi'
+      obtain ⟨hl, w, hw, hidx⟩ := ha
+      exact ⟨hl, w, v, hw, rfl, hidx⟩
+    | succ j =>
+      simp at hi'
+      obtain ⟨hl, w, u, hw, hu, hidx⟩ := h.2 j r hi'
+      exact ⟨hl, w, u, hw, by simpa using hu, hidx⟩
+
+/-- an environment seen under the table of `st` is seen under the table of any later state -/
+theorem sees_env_grows {interp : Interp V} {st st' : BState V} {e : List Ref} {vals : List V}
+    (hs : Sees ({ st with env := e } : BState V) (den (st.cfg interp)) vals) (hgr : Grows interp st st') :
+    Sees ({ st' with env := e } : BState V) (den (st'.cfg interp)) vals := by
+  have h1 : Sees ({ st with env := e } : BState V) (den (({ st with env := e } : BState V).cfg interp)) vals := hs
+  have h2 : Grows interp ({ st with env := e } : BState V) st' := ⟨hgr.next, hgr.den⟩
+  exact sees_grows h1 h2
+
+theorem withIdent_ident (interp : Interp V) (x : V) : withIdent interp identFn [x] [] = .ok x := by
+  simp [withIdent]
+
+/-- binding the parameters of a nested call: an identity stub per supplied argument, a holder per
+    unsupplied default; afterwards the parameter references are seen with the bound values -/
+theorem bindParamRefs_good (interp : Interp V) : ∀ (params : List (Option V)) (st : BState V) (vals : List V)
+    (argRefs : List Ref) (vs penv : List V) (st2 : BState V) (prefs : List Ref),
+    Good (withIdent interp) st vals →
+    Sees ({ st with env := argRefs } : BState V) (den (st.cfg (withIdent interp))) vs →
+    bindParams params vs = .ok penv →
+    bindParamRefs st none params argRefs = .ok (st2, prefs) →
+    Good (withIdent interp) st2 vals ∧ Grows (withIdent interp) st st2 ∧ st2.env = st.env ∧
+    Sees ({ st2 with env := prefs } : BState V) (den (st2.cfg (withIdent interp))) penv := by
+  intro params
+  induction params with
+  | nil =>
+    intro st vals argRefs vs penv st2 prefs hg hs hb hr
+    cases argRefs with
+    | nil =>
+      cases vs with
+      | nil =>
+        simp only [bindParams] at hb
+        simp only [bindParamRefs] at hr
+        have hp : penv = [] := by injection hb with h; exact h.symm
+        have : (st, ([] : List Ref)) = (st2, prefs) := by injection hr
+        obtain ⟨rfl, rfl⟩ := Prod.mk.inj this
+        subst hp
+        exact ⟨hg, Grows.refl _ _, rfl, sees_nil _ _⟩
+      | cons v vs => have := hs.1; simp at this
+    | cons a as => simp [bindParamRefs] at hr
+  | cons p ps ih =>
+    intro st vals argRefs vs penv st2 prefs hg hs hb hr
+    cases argRefs with
+    | nil =>
+      have hvs : vs = [] := by
+        have : ([] : List Ref).length = vs.length := hs.1
+        cases vs with | nil => rfl | cons _ _ => simp at this
+      subst hvs
+      cases p with
+      | none => simp [bindParamRefs] at hr
+      | some d =>
+        simp only [bindParams] at hb
+        simp only [bindParamRefs] at hr
+        cases hb' : bindParams ps ([] : List V) with
+        | error e => simp [hb', bind, Except.bind] at hb
+        | ok r =>
+          simp [hb', bind, Except.bind, pure, Except.pure] at hb
+          subst hb
+          cases hr' : bindParamRefs ({ st with next := st.next + 1, init := st.init.set st.next d } : BState V) none ps [] with
+          | error e => simp [hr', bind, Except.bind] at hr
+          | ok q =>
+            obtain ⟨st2', rs⟩ := q
+            simp [hr', bind, Except.bind, pure, Except.pure] at hr
+            obtain ⟨rfl, rfl⟩ := hr
+            -- the holder step is an `Ext`
+            have hext : Ext st ({ st with next := st.next + 1, init := st.init.set st.next d } : BState V) := by
+              refine ⟨Nat.le_succ _, rfl, rfl, rfl, ?_, ?_⟩
+              · intro x hx; show (st.init.set st.next d) x = st.init x; exact set_ne (Nat.ne_of_lt hx)
+              · intro h x hx
+                show (st.init.set st.next d) x = none
+                have hlt : st.next < x := hx
+                rw [set_ne (Nat.ne_of_gt hlt)]; exact h x (Nat.le_of_lt hlt)
+            have hg1 := good_of_ext hg hext
+            have hgr1 := grows_of_ext hg hext
+            obtain ⟨hg2, hgr2, henv2, hs2⟩ := ih _ vals [] [] r st2' rs hg1 (sees_nil _ _) hb' hr'
+            refine ⟨hg2, hgr1.trans hgr2, by rw [henv2], ?_⟩
+            apply sees_cons _ hs2
+            have hlt1 : st.next < st.next + 1 := Nat.lt_succ_self _
+            refine ⟨Nat.lt_of_lt_of_le hlt1 hgr2.next, d, ?_, rfl⟩
+            rw [hgr2.den st.next hlt1]
+            show denote _ st.nodes (st.init.set st.next d) st.next = some d
+            rw [denote_notin _ _ _ _ (fun hm => absurd (hg.nlt _ hm) (Nat.lt_irrefl _)), set_eq]
+    | cons a as =>
+      cases vs with
+      | nil => have := hs.1; simp at this
+      | cons v vs' =>
+        obtain ⟨⟨halt, w, hw, hidx⟩, hstail⟩ := sees_cons_inv hs
+        -- bindParams: whatever `p` is, the supplied value wins
+        have hb2 : ∃ r, bindParams ps vs' = .ok r ∧ penv = v :: r := by
+          cases p <;> simp only [bindParams] at hb <;>
+            (cases hb' : bindParams ps vs' with
+             | error e => simp [hb', bind, Except.bind] at hb
+             | ok r => simp [hb', bind, Except.bind, pure, Except.pure] at hb; exact ⟨r, rfl, hb.symm⟩)
+        obtain ⟨r, hb', rfl⟩ := hb2
+        have hr2 : ∃ st2' rs, bindParamRefs ({ extend ({ st with env := [] } : BState V)
+              { fn := identFn, args := [a], kwargs := [], active := none } with env := st.env } : BState V) none ps as
+              = .ok (st2', rs) ∧ st2 = st2' ∧ prefs = (⟨st.next, []⟩ : Ref) :: rs := by
+          cases p <;> simp only [bindParamRefs] at hr <;>
+            (cases hr' : bindParamRefs ({ extend ({ st with env := [] } : BState V)
+                { fn := identFn, args := [a], kwargs := [], active := none } with env := st.env } : BState V) none ps as with
+             | error e => simp [hr', bind, Except.bind] at hr
+             | ok q =>
+               obtain ⟨st2', rs⟩ := q
+               simp [hr', bind, Except.bind, pure, Except.pure] at hr
+               exact ⟨st2', rs, rfl, hr.1.symm, hr.2.symm⟩)
+        obtain ⟨st2', rs, hr', rfl, rfl⟩ := hr2
+        -- the stub is one `extend` from the state with the empty environment
+        have hg0 : Good (withIdent interp) ({ st with env := [] } : BState V) [] := good_setEnv hg [] (sees_nil _ _)
+        have hout : ∀ ρ1, Shows (den (({ st with env := [] } : BState V).cfg (withIdent interp))) ρ1
+            ({ st with env := [] } : BState V) ({ st with env := [] } : BState V) →
+            outcomeRec (withIdent interp) ρ1 { fn := identFn, args := [a], kwargs := [], active := none } = some v := by
+          intro ρ1 hshow
+          have h1 : ρ1 a.src = some w := by rw [hshow.1 a.src halt]; exact hw
+          simp only [outcomeRec, activeOf, callOf, List.mapM_cons, List.mapM_nil, resolve, h1, hidx]
+          simp [bind, Except.bind, pure, Except.pure, withIdent_ident]
+        have hg1 := good_extend (withIdent interp) hg0 (Ext.refl _)
+          { fn := identFn, args := [a], kwargs := [], active := none } v
+          (by intro x hx; simp [NodeRec.refs] at hx; subst hx; exact halt) hout
+        have hden1 := good_extend_den (withIdent interp) hg0 (Ext.refl _)
+          { fn := identFn, args := [a], kwargs := [], active := none } v hout
+        have hgr1 : Grows (withIdent interp) st (extend ({ st with env := [] } : BState V)
+            { fn := identFn, args := [a], kwargs := [], active := none }) :=
+          ⟨Nat.le_succ _, hden1.1⟩
+        have hg1' : Good (withIdent interp) ({ extend ({ st with env := [] } : BState V)
+            { fn := identFn, args := [a], kwargs := [], active := none } with env := st.env } : BState V) vals :=
+          good_setEnv hg1 st.env (sees_grows hg.sees hgr1)
+        have hgr1' : Grows (withIdent interp) st ({ extend ({ st with env := [] } : BState V)
+            { fn := identFn, args := [a], kwargs := [], active := none } with env := st.env } : BState V) :=
+          ⟨hgr1.next, hgr1.den⟩
+        have hstail' := sees_env_grows hstail hgr1'
+        obtain ⟨hg2, hgr2, henv2, hs2⟩ := ih _ vals as vs' r st2 rs hg1' hstail' hb' hr'
+        refine ⟨hg2, hgr1'.trans hgr2, by rw [henv2], ?_⟩
+        apply sees_cons _ hs2
+        have hlt1 : st.next < st.next + 1 := Nat.lt_succ_self _
+        refine ⟨Nat.lt_of_lt_of_le hlt1 hgr2.next, v, ?_, rfl⟩
+        rw [hgr2.den st.next hlt1]
+        exact hden1.2
+
+end VM
